@@ -116,9 +116,10 @@ class CifFile():
     def _misc_dict(self) -> Dict[str, str]:
         misc_dict = {}
         misc_dict["temperature"] = round(self.data.temp_in_kelvin, 3) or '?'
-        misc_dict["crystal_size_max"] = self.data.size.max or '?'
-        misc_dict["crystal_size_mid"] = self.data.size.mid or '?'
-        misc_dict["crystal_size_min"] = self.data.size.min or '?'
+        size = self.data.size
+        misc_dict["crystal_size_max"] = size.max if size is not None and size.max else '?'
+        misc_dict["crystal_size_mid"] = size.mid if size is not None and size.mid else '?'
+        misc_dict["crystal_size_min"] = size.min if size is not None and size.min else '?'
         misc_dict["wavelength"] = self.data.wavelength or '?'
         misc_dict["R1"] = self.data.R1 or '?'
         misc_dict["wR2"] = self.data.wr2 or '?'
